@@ -233,7 +233,12 @@ pub fn rewrite(mp: &MP, bits: u64) -> MP {
             polys.reverse();
         }
     }
-    MultiPolygon(polys)
+    let out = MultiPolygon(polys);
+    if xorshift(&mut s) % 4 == 0 {
+        // zero written as negative zero (the same number)
+        return map_mp(&out, &|p| pt(if p.x == 0.0 { -0.0 } else { p.x }, if p.y == 0.0 { -0.0 } else { p.y }));
+    }
+    out
 }
 
 pub fn c07(case: &Case, obs: &mut Obs, prec: Prec) -> Result<(), Failure> {
@@ -244,6 +249,9 @@ pub fn c07(case: &Case, obs: &mut Obs, prec: Prec) -> Result<(), Failure> {
     let a2 = rewrite(a, case.bits);
     let b2 = rewrite(b, case.bits.rotate_left(17) ^ 0x5555);
     let changed = raw_ring_set(&a2) != raw_ring_set(a) || raw_ring_set(&b2) != raw_ring_set(b) || a2 != *a || b2 != *b;
+    if rings_of(&a2).iter().chain(rings_of(&b2).iter()).any(|r| r.0.iter().any(|c| (c.x == 0.0 && c.x.is_sign_negative()) || (c.y == 0.0 && c.y.is_sign_negative()))) {
+        obs.class("negative-zero-coordinates");
+    }
     obs.nontrivial = base_nt && changed;
     for op in OPS {
         let r1 = run(prec, a, b, op)?;
@@ -445,10 +453,23 @@ pub fn c09(case: &Case, obs: &mut Obs, prec: Prec) -> Result<(), Failure> {
             return Err(Failure::new("far-part", format!("{}: {} expected the rings of {}", what, mp_to_text(&r2), mp_to_text(&want))));
         }
     }
-    // far parts on the right of both operands: the sweep of intersection / difference cannot stop early before them
-    {
-        let pa = rect_poly_p(prec, cx + far, cy + 2.0 * unit, cx + far + unit, cy + 3.0 * unit);
-        let pb = rect_poly_p(prec, cx + far, cy - 3.0 * unit, cx + far + unit, cy - 2.0 * unit);
+    // far parts on the same side of both operands (always to the right: the sweep of intersection / difference cannot
+    // stop early before them; and in one more direction chosen by the bits): every bound derived from the operands'
+    // boxes moves, the near geometry must not notice
+    let second = [0u64, 2, 3][((case.bits >> 9) % 3) as usize];
+    for both_dir in [1u64, second] {
+        let (pa, pb) = match both_dir {
+            0 => (rect_poly_p(prec, cx - far - unit, cy + 2.0 * unit, cx - far, cy + 3.0 * unit), rect_poly_p(prec, cx - far - unit, cy - 3.0 * unit, cx - far, cy - 2.0 * unit)),
+            1 => (rect_poly_p(prec, cx + far, cy + 2.0 * unit, cx + far + unit, cy + 3.0 * unit), rect_poly_p(prec, cx + far, cy - 3.0 * unit, cx + far + unit, cy - 2.0 * unit)),
+            2 => (rect_poly_p(prec, cx + 2.0 * unit, cy + far, cx + 3.0 * unit, cy + far + unit), rect_poly_p(prec, cx - 3.0 * unit, cy + far, cx - 2.0 * unit, cy + far + unit)),
+            _ => (rect_poly_p(prec, cx + 2.0 * unit, cy - far - unit, cx + 3.0 * unit, cy - far), rect_poly_p(prec, cx - 3.0 * unit, cy - far - unit, cx - 2.0 * unit, cy - far)),
+        };
+        obs.class(match both_dir {
+            0 => "far-parts-on-both-left",
+            1 => "far-parts-on-both-right",
+            2 => "far-parts-on-both-above",
+            _ => "far-parts-on-both-below",
+        });
         let a3 = concat(a, &MultiPolygon(vec![pa.clone()]));
         let b3 = concat(b, &MultiPolygon(vec![pb.clone()]));
         for (i, &op) in OPS.iter().enumerate() {
@@ -462,7 +483,7 @@ pub fn c09(case: &Case, obs: &mut Obs, prec: Prec) -> Result<(), Failure> {
                     want.0.push(pb.clone());
                 }
             }
-            let what = format!("op={}: far-right parts on both operands (no early stop)", op_name(op));
+            let what = format!("op={}: far parts on the same side ({}) of both operands", op_name(op), ["left", "right", "above", "below"][both_dir as usize]);
             if ctx.trivial_path {
                 if canonical(a) && canonical(b) {
                     if ring_set(&r3) != ring_set(&want) {
